@@ -237,7 +237,7 @@ pub struct Case8 {
 pub struct C08;
 
 fn workers_strategy() -> BoxedStrategy<u32> {
-    prop_oneof![2 => Just(1u32), 3 => Just(2u32), 3 => 3u32..=5].boxed()
+    prop_oneof![1 => Just(0u32), 3 => Just(1u32), 5 => Just(2u32), 5 => 3u32..=5].boxed()
 }
 
 impl Property for C08 {
@@ -403,6 +403,19 @@ impl Property for C08 {
                 Some(s)
             }
             Src::StUnits => Some(match fmt {
+                // independent units encoded one by one (see C09): the ST writer with a chunk size rarely cuts any
+                Fmt::Lzma2 if data.len() % 3 != 0 => {
+                    let mut s = Vec::new();
+                    let pieces: Vec<&[u8]> = if data.is_empty() { vec![&data[..]] } else { data.chunks((unit as usize).max(1)).collect() };
+                    for (i, piece) in pieces.iter().enumerate() {
+                        let mut part = encode_lzma(piece, &opts, None, &Framing::Lzma2 { chunk: None }, &Plan::All)?;
+                        if i + 1 < pieces.len() {
+                            part.pop();
+                        }
+                        s.extend_from_slice(&part);
+                    }
+                    s
+                }
                 Fmt::Lzma2 => encode_lzma(&data, &opts, None, &Framing::Lzma2 { chunk: Some(unit) }, &Plan::Fixed(1500))?,
                 Fmt::Lzip => encode_lzip(&data, &LzipCfg { opts: opts.clone(), member: Some(unit) }, &Plan::Fixed(1500))?,
             }),
@@ -611,7 +624,7 @@ impl Property for C09 {
             _ => (0u16..1000, 0u8..4).prop_map(|(at, kind)| Fault9::SinkErr { at, kind }).boxed(),
         };
         let iters = tier.pick(30u16, 300);
-        (mt_data(6), small_opts(), any::<bool>(), 1u8..5, fault, 1u32..=4, plan_strategy(), read_sizes_strategy(), sched_strategy())
+        (mt_data(6), small_opts(), any::<bool>(), 1u8..5, fault, prop_oneof![1 => Just(0u32), 10 => 1u32..=4], plan_strategy(), read_sizes_strategy(), sched_strategy())
             .prop_map(move |(data, opts, lzip, unit_half_mult, fault, workers, plan, sizes, sched)| Case9 {
                 data,
                 opts,
@@ -718,6 +731,22 @@ impl Property for C09 {
 
         // reader scenarios: the stream is built outside the scheduler with the ST writer
         let mut stream = match fmt {
+            // independent units: every slice of `unit` bytes encoded by a fresh writer, end markers of all but the
+            // last removed (what the MT writer produces). The ST writer with a chunk size only starts a new unit
+            // after it has emitted a chunk, which compressible data of this size never makes it do.
+            Fmt::Lzma2 if case.unit_half_mult != 3 => {
+                obs.class("lzma2_independent_units");
+                let mut s = Vec::new();
+                let pieces: Vec<&[u8]> = if data.is_empty() { vec![&data[..]] } else { data.chunks((unit as usize).max(1)).collect() };
+                for (i, piece) in pieces.iter().enumerate() {
+                    let mut part = encode_lzma(piece, &case.opts, None, &Framing::Lzma2 { chunk: None }, &Plan::All)?;
+                    if i + 1 < pieces.len() {
+                        part.pop();
+                    }
+                    s.extend_from_slice(&part);
+                }
+                s
+            }
             Fmt::Lzma2 => encode_lzma(&data, &case.opts, None, &Framing::Lzma2 { chunk: Some(unit) }, &Plan::Fixed(1500))?,
             Fmt::Lzip if case.unit_half_mult == 1 => {
                 // members written separately, with empty members in between (cat a.lz empty.lz b.lz)
